@@ -385,9 +385,9 @@ def overlap(A, B):
     A, B: iterables (will be converted to sets). na values will be dropped first
     """
     if type(A) != pd.Series:
-        A = pd.Series(A)
+        A = pd.Series(list(A))
     if type(B) != pd.Series:
-        B = pd.Series(B)
+        B = pd.Series(list(B))
     A = A.dropna()
     B = B.dropna()
     A = set(A)
@@ -405,9 +405,9 @@ def overlap_coefficient(A, B):
     A, B: iterables (will be converted to sets). na values will be dropped first
     """
     if type(A) != pd.Series:
-        A = pd.Series(A)
+        A = pd.Series(list(A))
     if type(B) != pd.Series:
-        B = pd.Series(B)
+        B = pd.Series(list(B))
     A = A.dropna()
     B = B.dropna()
     A = set(A)
